@@ -13,3 +13,28 @@ Theorem code_request_size_is_req_size : forall r, size_by gen_req_size_table (re
 Proof. intros r. apply size_by_req. exact gen_req_size_table_is_model. Qed.
 Theorem code_response_size_is_rsp_size : forall r, size_by gen_rsp_size_table (rsp_variant r) (rsp_items r) = Some (rsp_size r).
 Proof. intros r. apply size_by_rsp. exact gen_rsp_size_table_is_model. Qed.
+
+(* the four frame encoders (impl Encoder for ClientCodec / ServerCodec in codec/rtu.rs and codec/tcp.rs) regenerated from the source,
+   in normal form: the size check comes BEFORE every buffer write -- a refused PDU leaves nothing behind -- and a PDU within the limit
+   goes out as exactly the frame the model's encoder builds *)
+Theorem gen_rtu_client_frame_is_model : compile_frame gen_rtu_client_frame false false false = Some rtu_frame_toks.
+Proof. vm_compute. reflexivity. Qed.
+Theorem gen_rtu_server_frame_is_model : compile_frame gen_rtu_server_frame false false false = Some rtu_frame_toks.
+Proof. vm_compute. reflexivity. Qed.
+Theorem gen_tcp_client_frame_is_model : compile_frame gen_tcp_client_frame false false false = Some tcp_frame_toks.
+Proof. vm_compute. reflexivity. Qed.
+Theorem gen_tcp_server_frame_is_model : compile_frame gen_tcp_server_frame false false false = Some tcp_frame_toks.
+Proof. vm_compute. reflexivity. Qed.
+
+Theorem code_rtu_client_encoder_agrees : forall m h r,
+  exists run, run_frame gen_rtu_client_frame m h gen_PROTOCOL_ID (req_size_chk r) (enc_req m r) = Some run /\ enc_agrees run (RtuCodec.rtu_client_enc m h r).
+Proof. intros. apply rtu_client_frame_agrees. exact gen_rtu_client_frame_is_model. Qed.
+Theorem code_rtu_server_encoder_agrees : forall m h rr,
+  exists run, run_frame gen_rtu_server_frame m h gen_PROTOCOL_ID (rr_size_chk rr) (enc_rr m rr) = Some run /\ enc_agrees run (RtuCodec.rtu_server_enc m h rr).
+Proof. intros. apply rtu_server_frame_agrees. exact gen_rtu_server_frame_is_model. Qed.
+Theorem code_tcp_client_encoder_agrees : forall m h r,
+  exists run, run_frame gen_tcp_client_frame m h gen_PROTOCOL_ID (req_size_chk r) (enc_req m r) = Some run /\ enc_agrees run (TcpCodec.tcp_client_enc m h r).
+Proof. intros. apply tcp_client_frame_agrees. exact gen_tcp_client_frame_is_model. Qed.
+Theorem code_tcp_server_encoder_agrees : forall m h rr,
+  exists run, run_frame gen_tcp_server_frame m h gen_PROTOCOL_ID (rr_size_chk rr) (enc_rr m rr) = Some run /\ enc_agrees run (TcpCodec.tcp_server_enc m h rr).
+Proof. intros. apply tcp_server_frame_agrees. exact gen_tcp_server_frame_is_model. Qed.
